@@ -74,6 +74,11 @@ CPermuteFrom(c, pi, i, m) ==          \* pi: sequence 1..m of positions 0..m-1
 CPermute(c, pi, m) == CPermuteFrom(c, pi, 0, m)
 CSort(c, m, rev)  == LET s == StableSortPairs(<<>>, SeqOf([i \in Idx(m) |-> <<i, c[i]>>], m), rev)
                      IN [i \in Idx(m) |-> s[i+1][2]]
+(* a sparse matrix stores position (r, q) of a rows x cols matrix at r * cols + q of one sparse vector *)
+CSwapRows(c, cols, i, j) == [p \in DOMAIN c |-> LET r == p \div cols  q == p % cols
+                                               IN IF r = i THEN c[j * cols + q] ELSE IF r = j THEN c[i * cols + q] ELSE c[p]]
+CSwapCols(c, cols, i, j) == [p \in DOMAIN c |-> LET r == p \div cols  q == p % cols
+                                               IN IF q = i THEN c[r * cols + j] ELSE IF q = j THEN c[r * cols + i] ELSE c[p]]
 CSlice(c, a, b)   == [i \in Idx(b - a) |-> c[a + i]]
 CAppend(c, m, w)  == [i \in Idx(m + Len(w)) |-> IF i < m THEN c[i] ELSE w[i - m + 1]]
 
